@@ -15,14 +15,19 @@ seed_s = st.integers(0, 2**32 - 1)
 
 
 def space_s(must=('Floor',), max_types=None, allow_box=True):
-    """a declared space: non-empty type subset (containing `must`) and a colour subset (NONE implied)"""
+    """a declared space: non-empty type subset (containing `must`) and a colour subset (NONE implied).
+    Each type is in or out by its own coin so that rich spaces are common; the full space is a frequent special case."""
     pool = [t for t in GRID_TYPES if (allow_box or t != 'Box')]
 
-    def mk(ts, cs):
-        types = [t for t in pool if t in set(ts) | set(must)]
-        return {'types': types, 'colors': ['NONE'] + [c for c in REAL_COLORS if c in cs]}
+    def mk(bits, cbits):
+        types = [t for t, b in zip(pool, bits) if b or t in must]
+        if max_types is not None:
+            types = types[:max_types]
+        return {'types': types, 'colors': ['NONE'] + [c for c, b in zip(REAL_COLORS, cbits) if b]}
 
-    return st.builds(mk, st.sets(st.sampled_from(pool), max_size=max_types or len(pool)), st.sets(st.sampled_from(REAL_COLORS)))
+    bits = st.one_of(st.just([True] * len(pool)), st.lists(st.booleans(), min_size=len(pool), max_size=len(pool)))
+    cbits = st.one_of(st.just([True] * 4), st.lists(st.booleans(), min_size=4, max_size=4))
+    return st.builds(mk, bits, cbits)
 
 
 def obj_s(space, depth=2, exclude=(), beacon_color=None, floor_weight=0):
@@ -69,7 +74,7 @@ def obj_s(space, depth=2, exclude=(), beacon_color=None, floor_weight=0):
 @st.composite
 def agent_pos_s(draw, h, w):
     """position by class (corner / edge / interior / any) and heading biased to face outward on edges"""
-    cls = draw(st.sampled_from(['corner', 'edge', 'interior', 'any']))
+    cls = draw(st.sampled_from(['interior', 'interior', 'interior', 'edge', 'edge', 'corner', 'any', 'any']))
     if cls == 'corner':
         y, x = draw(st.sampled_from([0, h - 1])), draw(st.sampled_from([0, w - 1]))
     elif cls == 'edge':
@@ -90,7 +95,7 @@ def agent_pos_s(draw, h, w):
         outward.append('L')
     if x == w - 1:
         outward.append('R')
-    if outward and draw(st.booleans()):
+    if outward and draw(st.integers(0, 2)) == 0:
         hd = draw(st.sampled_from(outward))
     else:
         hd = draw(heading_s)
@@ -105,8 +110,9 @@ def state_s(draw, space, min_hw=1, max_hw=7, valid=False, unique=(), held='any',
     unique: type names that must occur exactly once on the grid, never in boxes or in hand.
     """
     if shape is None:
-        h = draw(st.integers(min_hw, max_hw))
-        w = draw(st.integers(min_hw, max_hw))
+        sizes = [k for k in (1, 2, 3, 3, 4, 4, 5, 5, 6, 7, 8, 9) if min_hw <= k <= max_hw] or [min_hw]
+        h = draw(st.sampled_from(sizes))
+        w = draw(st.sampled_from(sizes))
     else:
         h, w = shape
     if h * w < len(unique):
@@ -237,3 +243,20 @@ def composition_s(draw, space, chain_pool=M.TRANSITIONS, has_beacon=False, uniqu
     vh = draw(st.integers(1, 7))
     vw = draw(st.sampled_from([1, 3, 5, 7]))
     return {'chain': chain, 'rewards': rewards, 'term': term, 'obs': obs, 'view': [vh, vw]}
+
+
+@st.composite
+def plant_front_s(draw, sd, space, kinds=('Key', 'Box', 'Floor', 'Door')):
+    """by construction: put an object of a chosen declared kind in the cell the agent
+    faces (if that cell is inside the grid) so that interactions actually happen"""
+    f = M.front(sd)
+    if not M.in_grid(sd, f):
+        return sd
+    avail = [k for k in kinds if k in space['types']]
+    if not avail:
+        return sd
+    k = draw(st.sampled_from(avail))
+    sd = {'grid': [list(r) for r in sd['grid']], 'agent': list(sd['agent'])}
+    sd['grid'][f[0]][f[1]] = draw(obj_s({'types': [k] + ([t for t in space['types'] if t != 'Box'] if k == 'Box' else []), 'colors': space['colors']}, 1)
+                                  .filter(lambda o: obj_type(o) == k))
+    return sd
